@@ -758,7 +758,9 @@ Section Proportional.
   Variable eps : Z.
   Hypothesis eps_nonneg : 0 <= eps.
   Hypothesis sharef_nonneg : forall a b c r, sharef a b c = Some r -> 0 <= r.
-  Hypothesis sharef_acc : forall vl b s r, 0 < s -> sharef vl b s = Some r -> Z.abs (r * s - vl * b) <= eps * s.
+  Variable vmax : Z.
+  Hypothesis sharef_acc : forall vl b s r, 0 < s < sp_max -> 0 <= b <= s -> 0 <= vl <= vmax ->
+    sharef vl b s = Some r -> Z.abs (r * s - vl * b) <= eps * s.
 
   Definition sp_up (vl S : Z) (p : sp_dpool) (x : Z) : Prop := 0 <= x /\ x * S <= vl * dp_bal p + eps * S.
   Definition sp_lo (vl S : Z) (p : sp_dpool) (x : Z) : Prop := vl * dp_bal p - eps * S <= x * S.
@@ -771,17 +773,18 @@ Section Proportional.
 
   Lemma sp_share_loop_bounds : forall ps vl S vb ps' incs vbf,
     0 < S -> 0 <= vl -> 0 <= vb -> Forall (fun p => 0 <= dp_bal p) ps ->
+    S < sp_max -> vl <= vmax -> Forall (fun p => dp_bal p <= S) ps ->
     sp_share_loop sharef vl S vb ps = Some (ps', incs, vbf) ->
     Forall2 (sp_up vl S) ps incs /\ (0 < vbf -> Forall2 (sp_lo vl S) ps incs).
   Proof.
-    induction ps as [|p tl IH]; intros vl S vb ps' incs vbf HS Hvl Hvb HF H.
+    induction ps as [|p tl IH]; intros vl S vb ps' incs vbf HS Hvl Hvb HF HSm Hvm HFle H.
     - simpl in H. inversion H; subst. split; [constructor|intros; constructor].
     - pose proof H as Hspec. apply (sp_share_loop_spec sharef sharef_nonneg) in Hspec; [|assumption].
-      simpl in H. inversion HF as [|? ? Hb HFt]; subst.
+      simpl in H. inversion HF as [|? ? Hb HFt]; subst. inversion HFle as [|? ? Hble HFlet]; subst.
       destruct (Z.eqb_spec vb 0) as [->|Hne].
       + inversion H; subst. split; [|lia]. apply (sp_up_zeros vl S (p :: tl)); assumption.
       + destruct (sharef vl (dp_bal p) S) as [r|] eqn:Hr; [|discriminate].
-        pose proof (sharef_nonneg _ _ _ _ Hr) as Hr0. pose proof (sharef_acc _ _ _ _ HS Hr) as Hacc.
+        pose proof (sharef_nonneg _ _ _ _ Hr) as Hr0. pose proof (sharef_acc _ _ _ _ (conj HS HSm) (conj Hb Hble) (conj Hvl Hvm) Hr) as Hacc.
         destruct (Z.gtb_spec r vb) as [Hgt|Hle].
         * destruct (sp_add_coin (dp_reward p) vb) as [nr|]; [|discriminate].
           destruct (sp_share_loop sharef vl S 0 tl) as [[[tl' il] vbf']|] eqn:Hl; [|discriminate].
@@ -830,14 +833,21 @@ Section Proportional.
   Lemma sp_share_proportional_aux : forall sp value sp' charge incs stake,
     sp_wf sp -> 0 < value -> sp_total_rewards sp + value < sp_max ->
     (forall c, chargef (ss_charge (sp_set sp)) value = Some c -> 0 <= c) ->
-    sp_stake sp = Some stake ->
+    sp_stake sp = Some stake -> value <= vmax ->
     sp_distribute_body chargef sharef sp value = SpOk (sp', charge, incs) -> sp_pools sp <> [] ->
     exists e, sp_cred (sp_pools sp) e (sp_pools sp') /\ sp_sum e = value - charge /\
       forall i, (i < length (sp_pools sp))%nat ->
         Z.abs (nth i e 0 * stake - (value - charge) * dp_bal (nth i (sp_pools sp) sp_dflt))
         <= ((Z.of_nat (length (sp_pools sp)) + 1) * eps + 1) * stake.
   Proof.
-    intros sp value sp' charge incs stake Hwf Hv Hsum Hch Hst H Hne.
+    intros sp value sp' charge incs stake Hwf Hv Hsum Hch Hst Hvmax H Hne.
+    assert (Hstmax : stake < sp_max).
+    { unfold sp_stake in Hst. destruct (sp_pools sp) as [|p0 tl0]; [contradiction|]. simpl in Hst.
+      destruct (sp_add_coin 0 (dp_bal p0)) as [a0|] eqn:Ea; [|discriminate].
+      apply sp_add_coin_some in Ea. destruct Ea as [-> Ea]. revert Hst Ea. generalize (0 + dp_bal p0).
+      clear. induction tl0 as [|q tl IH]; simpl; intros a Hst Ha; [inversion Hst; subst; exact Ha|].
+      destruct (sp_add_coin a (dp_bal q)) as [a1|] eqn:E1; [|discriminate].
+      apply sp_add_coin_some in E1. destruct E1 as [-> E1]. eapply IH; eassumption. }
     pose proof (sp_wf_rewards_nonneg _ Hwf) as Hnn. pose proof (sp_sum_rewards_nonneg _ Hnn) as Hsn.
     assert (Hbal : Forall (fun p => 0 <= dp_bal p) (sp_pools sp)).
     { destruct Hwf as [Hp _]. eapply Forall_impl; [|exact Hp]. intros a [[Ha _] _]. exact Ha. }
@@ -861,6 +871,10 @@ Section Proportional.
       destruct (sp_share_loop sharef (value - c) stake (value - c) (sp_pools sp)) as [[[ps1 incs1] vb]|] eqn:Hl; [|discriminate].
       pose proof Hl as Hspec. apply (sp_share_loop_spec sharef sharef_nonneg) in Hspec; [|lia].
       destruct Hspec as (Hcr & Hvb & Hsm).
+      assert (Hble : Forall (fun p => dp_bal p <= stake) (sp_pools sp)).
+      { rewrite HS. clear - Hbal. induction Hbal as [|p l Hp Hl IH]; [constructor|].
+        assert (0 <= sp_sum_bal l) by (clear - Hl; induction Hl; simpl; lia).
+        constructor; [simpl; lia|]. eapply Forall_impl; [|exact IH]. intros a Ha. simpl in *. lia. }
       apply sp_share_loop_bounds in Hl; try assumption; try lia. destruct Hl as [Hup Hlo].
       pose proof (sp_cred_len _ _ _ Hcr) as [Hl1 Hl2].
       destruct (Z.gtb_spec vb 0) as [Hgt|Hle].
@@ -907,19 +921,20 @@ Section Proportional.
 End Proportional.
 
 Lemma sp_share_proportional :
-  forall (chargef : f64 -> Z -> option Z) (sharef : Z -> Z -> Z -> option Z) (eps : Z),
+  forall (chargef : f64 -> Z -> option Z) (sharef : Z -> Z -> Z -> option Z) (eps vmax : Z),
   0 <= eps ->
   (forall a b c r, sharef a b c = Some r -> 0 <= r) ->
-  (forall vl b s r, 0 < s -> sharef vl b s = Some r -> Z.abs (r * s - vl * b) <= eps * s) ->
+  (forall vl b s r, 0 < s < sp_max -> 0 <= b <= s -> 0 <= vl <= vmax ->
+     sharef vl b s = Some r -> Z.abs (r * s - vl * b) <= eps * s) ->
   forall sp value sp' charge incs stake,
   sp_wf sp -> 0 < value -> sp_total_rewards sp + value < sp_max ->
   (forall c, chargef (ss_charge (sp_set sp)) value = Some c -> 0 <= c) ->
-  sp_stake sp = Some stake ->
+  sp_stake sp = Some stake -> value <= vmax ->
   sp_distribute_body chargef sharef sp value = SpOk (sp', charge, incs) -> sp_pools sp <> [] ->
   exists e, sp_cred (sp_pools sp) e (sp_pools sp') /\ sp_sum e = value - charge /\
     forall i, (i < length (sp_pools sp))%nat ->
       Z.abs (nth i e 0 * stake - (value - charge) * dp_bal (nth i (sp_pools sp) sp_dflt))
       <= ((Z.of_nat (length (sp_pools sp)) + 1) * eps + 1) * stake.
 Proof.
-  intros chargef sharef eps He Hn Ha. intros. eapply sp_share_proportional_aux; eassumption.
+  intros chargef sharef eps vmax He Hn Ha. intros. eapply sp_share_proportional_aux; eassumption.
 Qed.
